@@ -353,3 +353,4 @@ Print Assumptions C19_std_min_by_shapes_agree.
 Print Assumptions C19_std_max_by_shapes_agree.
 Print Assumptions C19_min_returns_least.
 Print Assumptions C19_antisym_satisfiable.
+Print Assumptions C19_rebind_hypotheses_satisfiable.
